@@ -34,20 +34,21 @@ from bv.refs import schedref as ref
 
 PROPERTY = "C20"
 LEVEL = "exploration"
-BUDGET = {"quick": 58.0, "thorough": 870.0}
+BUDGET = {"quick": 55.0, "thorough": 870.0}
 RULE = ("part1: every (calendar date of the listed years) x (pattern): Date patterns year{any,same,previous,next} x "
         "month{1..12,odd,even,any} x day{1..31,last,odd,even,any} x dow{1..7,any}; date ranges with both ends from "
         "{open, year/month/leap boundary dates, the date itself, the day before/after}; WeekNDay month{1..12,odd,even,any} x "
         "week{1..9,any} x dow{1..7,any}; CalendarEntry of the three kinds over a reduced grid; evaluations count every "
         "(date, pattern) pair, distinct counts (matcher, date) and (matcher, pattern) keys separately because the pairs "
-        "do not fit in memory.  part2: every schedule = ordered list of <=2 (T: 3) exceptions, each "
-        "{in force, not in force} x priority{1,2,16} x time-value list (<=2 entries, ascending times from "
-        "{00:00,08:00,17:00}, each value a schedule-wide unique integer or Null), equal priorities only where at most one of "
-        "the two is in force, x weekly list of the evaluated weekday (same 19 lists, or property absent), other weekdays "
-        "filled with marker values, evaluated at 10 instants {00:00,00:01,07:59,08:00,08:01,16:59,17:00,17:01,23:59,"
+        "do not fit in memory.  part2: every schedule = ordered list of <=2 (T: 3, of which at most one not in force) exceptions, each "
+        "{in force, not in force} x priority{1,2,16} x time-value list (every ascending subset of "
+        "{00:00,08:00,17:00}, each value a schedule-wide unique integer or Null: 27 lists, 19 of them with <=2 entries), equal "
+        "priorities only where at most one of the two is in force, x weekly list of the evaluated weekday (same lists, or "
+        "property absent), other weekdays filled with marker values, evaluated at 10 instants {00:00,00:01,07:59,08:00,08:01,16:59,17:00,17:01,23:59,"
         "23:59:59.99}; plus every exception-period pattern (date/range/WeekNDay/calendar reference) x dates, every weekday, "
-        "and every effective-period class {specific,open}^2 x dates around both edges; a case is a distinct "
-        "(schedule, date, instant).  part3: every (body, effective-period class, anchor date, start instant) runs "
+        "and every effective-period class {specific,open}^2 x dates around both edges; evaluations count "
+        "(schedule, date, instant) triples, distinct counts (schedule, date set) keys, at the three-exception level exception "
+        "triples.  part3: every (body, effective-period class, anchor date, start instant) runs "
         "6 virtual days, 10 probes per day.")
 ASSUMPTIONS = [
     "schedule objects are built the way tests/test_local builds them (time values hold Integer/Null atomics, times and "
@@ -66,9 +67,10 @@ ASSUMPTIONS = [
     "the standard and are not enumerated",
 ]
 BOUNDS = {
-    "quick": "part1 years 1900,1999,2000,2023,2024,2100,2154 (2 557 dates); part2 <=2 exceptions; part3 4 anchors",
-    "thorough": "part1 every date 1900..2154 (93 138 dates); part2 <=3 exceptions (third level with 10 of the 20 weekly alternatives); "
-                "part3 10 anchors x larger body set",
+    "quick": "part1 years 1900,1999,2000,2023,2024,2100,2154 (2 557 dates); part2 <=1 exception over all 27 lists, 2 exceptions over "
+             "the 19 lists of <=2 entries with 10 of the 20 weekly alternatives; part3 4 anchor dates x 8 effective periods x 39 bodies x 2 start instants, 6 virtual days",
+    "thorough": "part1 every date 1900..2154 (93 137 dates); part2 <=2 exceptions over all 27 lists, 3 exceptions (at most one of them not in force) over the "
+                "19 lists of <=2 entries with 5 of the 20 weekly alternatives; part3 10 anchor dates x 8 effective periods x larger body set",
 }
 
 ANY = 255
@@ -384,8 +386,8 @@ def p1_shard(item, deadline):
     if item:
         y, m = item[0]
         d = datetime.date(y, m, _cal.monthrange(y, m)[1])
-        acc.sample({"part": 1, "date": str(d), "pattern": (ANY, 14 if m % 2 == 0 else 13, 32, ANY),
-                    "match_date": bool(_sch.match_date(dtuple(d), (ANY, 14 if m % 2 == 0 else 13, 32, ANY)))})
+        ok, got, exp = p1_one("date", (d.year, d.month, d.day), (ANY, 14 if m % 2 == 0 else 13, 32, ANY))
+        acc.sample({"part": 1, "date": str(d), "pattern": (ANY, 14 if m % 2 == 0 else 13, 32, ANY), "match_date": got, "reference": exp})
     return acc
 
 
@@ -475,10 +477,14 @@ def tv_shapes():
 
 
 SHAPES = tv_shapes()
+N2 = len(SHAPES)                 # 19 shapes of <=2 entries
+for _flags in itertools.product((False, True), repeat=3):
+    SHAPES.append(tuple(zip(TIMES, _flags)))     # + 8 shapes with all three times
+N3 = len(SHAPES)                 # 27
 
 
 def fill(shape, base):
-    """Shape -> time-value list with unique values base+1, base+2 (None for Null)."""
+    """Shape -> time-value list with unique values base+1, base+2, base+3 (None for Null)."""
     return tuple((t, None if z else base + j + 1) for j, (t, z) in enumerate(shape))
 
 
@@ -531,8 +537,8 @@ def p2a_desc(excs, wk, d, rot):
     return {"period": win[rot % 3], "weekly": weekly, "exceptions": tuple(exceptions), "default": 0}
 
 
-def exc_alternatives():
-    return [(inf, prio, si) for inf in (True, False) for prio in PRIOS for si in range(len(SHAPES))]
+def exc_alternatives(nshapes):
+    return [(inf, prio, si) for inf in (True, False) for prio in PRIOS for si in range(nshapes)]
 
 
 def compatible(excs):
@@ -574,26 +580,23 @@ def entry_kind(entry):
     return {"date": "date", "wnd": "weeknday"}[k]
 
 
-def period_kind(desc, d):
-    """Pattern class of every exception period (root-cause tag).  For a calendar reference: the class of the
-    calendar entry on which the real matcher and the reference disagree for this date, if there is one."""
-    kinds = []
+def matcher_disagreement(desc, d):
+    """Root-cause naming only (failure path): the pattern class of the first exception period (or entry of a referenced
+    calendar) on which the tree's own date matcher and the reference disagree for this date, else None."""
     for e in desc.get("exceptions") or []:
         k, what = e["period"]
-        if k != "cal":
-            kinds.append(entry_kind(e["period"]))
-            continue
-        culprit = None
-        for x in what:
+        for x in (what if k == "cal" else (e["period"],)):
             try:
                 got = bool(_sch.date_in_calendar_entry(dtuple(d), mk_entry(x)))
             except Exception:
                 got = None
             if got != ref.entry_matches(x, d):
-                culprit = entry_kind(x)
-                break
-        kinds.append("calendar-reference" + (">" + culprit if culprit else ""))
-    return kinds
+                return ("calendar-reference>" if k == "cal" else "") + entry_kind(x)
+    return None
+
+
+def period_kind(e):
+    return "calendar-reference" if e["period"][0] == "cal" else entry_kind(e["period"])
 
 
 def next_instant(d, nt):
@@ -604,8 +607,9 @@ def next_instant(d, nt):
     return (d, nt)
 
 
-def judge_eval(desc, d, t, so):
-    """Call the real eval and judge it.  Returns (outcome label, failure or None) where failure = (signature, detail)."""
+def judge_eval(desc, d, t, so, tag=None):
+    """Call the real eval and judge it.  Returns (outcome label, failure or None) where failure = (signature, detail).
+    tag "p2b" marks the sweep in which only the exception period varies (used to name the root cause)."""
     edate = dtuple(d)
     try:
         res = so._task.eval(edate, tuple(t))
@@ -637,17 +641,23 @@ def judge_eval(desc, d, t, so):
         value, nt = res
     except Exception:
         return "in-period:odd", ("eval:result-not-a-pair", {"result": repr(res)})
+    if value is None:
+        return "in-period:eval-returns-no-value", ("eval:effective-period:%s:active-day-evaluated-as-inactive" % range_class(desc["period"]),
+                                                   {"result": (None, nt), "expected_value": want})
     got = getattr(value, "value", value)
     if isinstance(value, Null):
         got = None
     want_src = source_of(desc, d, t, want)
     if got != want:
         got_src = source_of(desc, d, t, got)
-        sig = "eval:value:want=%s:got=%s" % (want_src, got_src)
-        kinds = period_kind(desc, d)
-        if ("exception" in want_src or "exception" in got_src) and len(kinds) == 1:
-            sig += ":period=%s" % kinds[0]
-        return "value-differs", (sig, {"got": got, "expected": want, "next": nt})
+        dis = matcher_disagreement(desc, d)
+        if dis is not None:
+            sig = "eval:exception-period:%s:matcher-disagrees-with-calendar" % dis
+        elif tag == "p2b":
+            sig = "eval:exception-period:%s:in-force-status-wrong" % period_kind(desc["exceptions"][0])
+        else:
+            sig = "eval:value:want=%s:got=%s" % (want_src, got_src)
+        return "value-differs", (sig, {"got": got, "expected": want, "next": nt, "expected_from": want_src, "got_from": got_src})
     if nt is None or len(tuple(nt)) != 4 or ANY in tuple(nt):
         return "next-odd", ("eval:next-transition:not-a-specific-time", {"next": repr(nt)})
     stop = next_instant(d, nt)
@@ -659,13 +669,17 @@ def judge_eval(desc, d, t, so):
             missed = "period-exit" if not st[0] else source_of(desc, x[0], x[1], st[1])
             if x[0] != d:
                 missed = "next-day:" + missed
+            dis = matcher_disagreement(desc, d)
+            if dis is not None:
+                return "next-late", ("eval:exception-period:%s:matcher-disagrees-with-calendar" % dis,
+                                     {"value": got, "next": nt, "value_changes_at": (str(x[0]), x[1]), "to": st})
             return "next-late", ("eval:next-transition:late:from=%s:missed=%s" % (want_src, missed),
                                  {"value": got, "next": nt, "value_changes_at": (str(x[0]), x[1]), "to": st})
     lab = "%s|next=%s" % (want_src, "midnight" if tuple(nt)[0] >= 24 else "%02d:%02d" % (nt[0], nt[1]))
     return lab, None
 
 
-def p2_eval_desc(acc, desc, dates, instants, tag):
+def p2_eval_desc(acc, desc, dates, instants, tag, key=None):
     """Build once, evaluate at dates x instants, record."""
     try:
         app, so, cals = build(desc)
@@ -678,15 +692,15 @@ def p2_eval_desc(acc, desc, dates, instants, tag):
     try:
         for d in dates:
             for t in instants:
-                lab, bad = judge_eval(desc, d, t, so)
+                lab, bad = judge_eval(desc, d, t, so, tag)
                 acc.outcome("p2:" + lab)
                 if bad is not None:
                     sig, detail = bad
                     detail = dict(detail)
                     detail.update({"schedule": desc, "date": str(d), "weekday": d.isoweekday(), "time": t})
-                    acc.fail(sig, detail, {"part": 2, "desc": desc, "date": (d.year, d.month, d.day), "time": t})
+                    acc.fail(sig, detail, {"part": 2, "tag": tag, "desc": desc, "date": (d.year, d.month, d.day), "time": t})
         acc.evaluations += len(dates) * len(instants)
-        acc.keys.add(h64((tag, repr(desc), [str(d) for d in dates])))
+        acc.keys.add(h64(key if key is not None else (tag, repr(desc), [str(d) for d in dates])))
         acc.add_info("part2 schedules", 1)
         acc.add_info("part2 (schedule,date,instant) evaluations", len(dates) * len(instants))
     finally:
@@ -694,15 +708,18 @@ def p2_eval_desc(acc, desc, dates, instants, tag):
 
 
 def p2a_shard(item, deadline):
-    """item = (seed, n_exc, list of first-level prefixes, weekly indices): enumerate everything below the prefixes."""
-    seed, n_exc, prefixes, weeklies = item
+    """item = (seed, n_exc, list of first-level prefixes, weekly indices, number of shapes): enumerate everything
+    below the prefixes."""
+    seed, n_exc, prefixes, weeklies, nshapes = item
     acc = Acc()
-    alts = exc_alternatives()
+    alts = exc_alternatives(nshapes)
     count = 0
     for prefix in prefixes:
         rest = n_exc - len(prefix)
         for tail in itertools.product(alts, repeat=rest):
             excs = tuple(prefix) + tail
+            if n_exc >= 3 and sum(1 for e in excs if not e[0]) > 1:
+                continue              # bound of the third level: at most one of the three is not in force
             if not compatible(excs):
                 acc.add_info("part2a equal-priority combinations left out", 1)
                 continue
@@ -713,10 +730,13 @@ def p2a_shard(item, deadline):
                 if not excs and wk is None:
                     continue          # neither schedule present: configuration error by the standard
                 count += 1
-                rot = count + seed
+                # leaf rotation (evaluated date, period kind, effective-period window): a fixed integer mix of the
+                # position in the enumeration so that it is not periodic in any enumeration index
+                rot = (((count * 2654435761) & 0xFFFFFFFF) >> 9) + seed
                 d = P2A_DATES[rot % len(P2A_DATES)]
                 desc = p2a_desc(excs, wk, d, rot)
-                p2_eval_desc(acc, desc, (d,), INSTANTS, "p2a")
+                # three-exception level: one key per exception triple (7 million schedule keys would not fit in memory)
+                p2_eval_desc(acc, desc, (d,), INSTANTS, "p2a", key=("p2a3", excs) if n_exc >= 3 else None)
                 if count == 1 and excs:
                     acc.sample({"part": "2a", "schedule": desc, "date": str(d),
                                 "reference": [(t, ref.present_value(desc, d, t)[1]) for t in INSTANTS]})
@@ -756,7 +776,7 @@ def p2c_cases():
     """Weekday indexing: every weekday has its own list; 3 weeks of consecutive dates in 4 places."""
     for start in (datetime.date(2024, 2, 19), datetime.date(2023, 12, 25), datetime.date(1900, 1, 1), datetime.date(2154, 12, 11)):
         dates = [start + datetime.timedelta(days=i) for i in range(21) if in_years(start + datetime.timedelta(days=i))]
-        for si in range(len(SHAPES)):
+        for si in range(N3):
             for exc in (None, ()):
                 weekly = tuple(fill(SHAPES[si], 10 * (i + 1)) for i in range(7))
                 yield ({"period": WIDE, "weekly": weekly, "exceptions": exc, "default": 0}, dates)
@@ -769,10 +789,10 @@ def p2d_cases(tier):
                (datetime.date(1999, 12, 31), datetime.date(2000, 1, 1)), (datetime.date(1900, 1, 1), datetime.date(2154, 12, 31)),
                (datetime.date(2024, 1, 31), datetime.date(2024, 2, 1))]
     bodies = []
-    for si in (0, 1, 7, 9, 12, 18) if tier == "quick" else range(len(SHAPES)):
+    for si in (0, 1, 7, 9, 12, 18, 23) if tier == "quick" else range(N3):
         bodies.append({"weekly": tuple(fill(SHAPES[si], 10 * (i + 1)) for i in range(7)), "exceptions": None, "default": 0})
         bodies.append({"weekly": tuple(fill(SHAPES[si], 10 * (i + 1)) for i in range(7)),
-                       "exceptions": ({"period": ("wnd", (ANY, ANY, ANY)), "tv": fill(SHAPES[(si + 5) % len(SHAPES)], 100), "prio": 3},), "default": 0})
+                       "exceptions": ({"period": ("wnd", (ANY, ANY, ANY)), "tv": fill(SHAPES[(si + 5) % N3], 100), "prio": 3},), "default": 0})
         bodies.append({"weekly": None,
                        "exceptions": ({"period": ("date", (ANY, ANY, ANY, ANY)), "tv": fill(SHAPES[si], 100), "prio": 16},), "default": 0})
     for (s, e) in windows:
@@ -818,7 +838,7 @@ def p3_probes(day0):
 
 
 def p3_run(desc, day0, start_t):
-    """One execution.  Returns (observations, verdict) where verdict = None or (signature, detail)."""
+    """One execution.  Returns (observations, verdict, swallowed) where verdict = None or (signature, detail)."""
     desc = tup(desc)
     start = (day0, tuple(start_t))
     vclock.reset(epoch(day0, start_t))
@@ -851,7 +871,9 @@ def p3_run(desc, day0, start_t):
                 else:
                     phase = "after-period-entry"
                 first_bad = ("value", phase, {"at": (str(d), t), "present_value": pv, "expected": want,
-                                               "source_expected": source_of(desc, d, t, want), "armed": armed})
+                                               "source_expected": source_of(desc, d, t, want),
+                                               "source_shown": "initial-value" if pv == -1 else source_of(desc, d, t, pv),
+                                               "armed": armed})
     except vclock.Livelock as err:
         livelock = str(err)
     swallowed = sorted(set(m for (_, m) in vclock.swallowed))
@@ -867,7 +889,11 @@ def p3_run(desc, day0, start_t):
         verdict = ("timer:livelock:%s:%s" % (pclass, sw), {"livelock": livelock})
     elif first_bad is not None:
         kind, phase, detail = first_bad
-        verdict = ("timer:present-value-wrong:%s:%s:%s" % (phase, pclass, sw), detail)
+        if not detail["armed"] or detail["source_shown"] == "initial-value":
+            # the interpreter is not running / never wrote: an effective-period or liveness problem
+            verdict = ("timer:present-value-not-updated:%s:%s:%s" % (phase, pclass, sw), detail)
+        else:
+            verdict = ("timer:present-value-wrong:want=%s:shown=%s:%s" % (detail["source_expected"], detail["source_shown"], sw), detail)
     elif not armed_end:
         act_end = ref.present_value(desc, end_d - datetime.timedelta(days=1), (23, 59, 59, 0))[0]
         if act_end:
@@ -904,9 +930,9 @@ def p3_bodies(tier, day0):
     e_open = {"period": ("range", (dpat(d3), OPEN)), "tv": (((17, 0, 0, 0), 501),), "prio": 8}
     exc_sets = [None, (), (e_date,), (e_rng,), (e_wnd,), (e_cal,), (e_open,), (e_date, e_rng), (e_rng, e_date), (e_wnd, e_cal, e_date)]
     if tier != "quick":
-        for si in range(1, len(SHAPES)):
+        for si in range(1, N3):
             exc_sets.append(({"period": ("date", dpat(d3)), "tv": fill(SHAPES[si], 600), "prio": 4},
-                             {"period": ("range", (dpat(d2), dpat(d4))), "tv": fill(SHAPES[(si * 7) % len(SHAPES)], 700), "prio": 9}))
+                             {"period": ("range", (dpat(d2), dpat(d4))), "tv": fill(SHAPES[(si * 7) % N3], 700), "prio": 9}))
     for wk in weeklies:
         for ex in exc_sets:
             if wk is None and ex is None:
@@ -969,9 +995,15 @@ def p3_shard(item, deadline):
             acc.swallowed[m] += 1
         acc.outcome("p3:%s:%s" % (pname, "ok" if verdict is None else verdict[0].split(":")[1]))
         for v in set(o[2] for o in obs):
-            acc.outcome("p3:pv-source:%s" % ("initial" if v == -1 else "default" if v == 0 else "weekly" if v < 100 else "exception"))
+            acc.outcome("p3:pv-source:%s" % ("other" if not isinstance(v, int) else "initial" if v == -1 else "default" if v == 0
+                                             else "weekly" if v < 100 else "exception"))
         if verdict is not None:
             sig, detail = verdict
+            if acc.info.get("part3 failing runs repeated", 0) < 3:
+                acc.add_info("part3 failing runs repeated", 1)
+                obs3, verdict3, _ = p3_run(desc, d0, st)
+                if obs3 != obs or verdict3 is None or verdict3[0] != sig:
+                    raise HarnessError("C20 part3: a failing configuration did not fail the same way when repeated")
             detail = dict(detail)
             detail.update({"schedule": desc, "day0": str(d0), "start": st, "period_kind": pname})
             acc.fail(sig, detail, {"part": 3, "desc": desc, "day0": day0, "start": st})
@@ -1001,13 +1033,22 @@ def run(tier, seed, deadline):
     acc.info["part3 configurations"] = len(cfgs)
     acc.info["part3 wall_s"] = round(time.time() - t_start, 1)
 
-    # ---- part 2
+    # ---- part 1
+    t1 = time.time()
+    years = Q_YEARS if quick else range(1900, 2155)
+    months = [(y, m) for y in years for m in range(1, 13)]
+    if quick:
+        shards = chunks(months, len(months))
+    else:
+        shards = [months[i:i + 6] for i in range(0, len(months), 6)]
+    run_shards(p1_shard, shards, t_start + 0.50 * span, into=acc)
+    acc.info["part1 wall_s"] = round(time.time() - t1, 1)
+    # ---- part 2 with the remaining budget
     t2 = time.time()
-    alts = exc_alternatives()
-    all_wk = [None] + list(range(len(SHAPES)))
-    dl2 = t_start + (0.55 if quick else 0.62) * span
-    items = [(seed, 0, [()], all_wk)]
-    items += [(seed, 1, c, all_wk) for c in chunks([(a,) for a in alts], 16)]
+    wk3 = [None] + list(range(N3))
+    dl2 = deadline - 2.0
+    items = [(seed, 0, [()], wk3, N3)]
+    items += [(seed, 1, c, wk3, N3) for c in chunks([(a,) for a in exc_alternatives(N3)], 16)]
     run_shards(p2a_shard, items, dl2, into=acc)
     # 2b/2c/2d: pattern classes, weekdays, effective period
     b_dates = {}
@@ -1020,23 +1061,17 @@ def run(tier, seed, deadline):
     cd_items += [("p2d", desc, _dl(dates)) for (desc, dates) in p2d_cases(tier)]
     run_shards(p2cd_shard, chunks(cd_items, 64), dl2, into=acc)
     # two exceptions: one shard per first exception
-    run_shards(p2a_shard, [(seed, 2, [(a,)], all_wk) for a in alts], dl2, into=acc)
-    if not quick:
-        few_wk = [None, 0, 1, 4, 6, 7, 9, 12, 14, 18]
-        pre = [(a, b) for a in alts for b in alts]
-        run_shards(p2a_shard, [(seed, 3, c, few_wk) for c in chunks(pre, 512)], dl2, into=acc)
+    few_wk = [None, 0, 1, 4, 6, 7, 9, 12, 14, 18]
+    if quick:
+        run_shards(p2a_shard, [(seed, 2, [(a,)], few_wk, N2) for a in exc_alternatives(N2)], dl2, into=acc)
+    else:
+        run_shards(p2a_shard, [(seed, 2, [(a,)], wk3, N3) for a in exc_alternatives(N3)], dl2, into=acc)
+        alts = exc_alternatives(N2)
+        pre = [(a, b) for a in alts for b in alts if a[0] or b[0]]
+        wk5 = [None, 0, 1, 9, 16]     # absent, [], [00:00 v], [00:00 Null, 08:00 v], [08:00 v, 17:00 Null]
+        run_shards(p2a_shard, [(seed, 3, c, wk5, N2) for c in chunks(pre, 512)], dl2, into=acc)
     acc.info["part2 wall_s"] = round(time.time() - t2, 1)
 
-    # ---- part 1 with the remaining budget
-    t1 = time.time()
-    years = Q_YEARS if quick else range(1900, 2155)
-    months = [(y, m) for y in years for m in range(1, 13)]
-    if quick:
-        shards = chunks(months, len(months))
-    else:
-        shards = [months[i:i + 6] for i in range(0, len(months), 6)]
-    run_shards(p1_shard, shards, deadline - 2.0, into=acc)
-    acc.info["part1 wall_s"] = round(time.time() - t1, 1)
     return acc
 
 
@@ -1053,7 +1088,7 @@ def replay(case):
         t = tuple(case["time"])
         app, so, cals = build(desc)
         try:
-            lab, bad = judge_eval(desc, d, t, so)
+            lab, bad = judge_eval(desc, d, t, so, case.get("tag"))
             try:
                 res = so._task.eval(dtuple(d), t)
                 res = None if res is None else (getattr(res[0], "value", res[0]), res[1])
